@@ -367,6 +367,37 @@ func (c *Ctx) decoderMessages(fn *ssa.Function) []string {
 					if core.IsCallTo(call, qpPath, "BuildMap") {
 						if name := typeSlabField(call.Call.Args[0]); name != "" {
 							set[name] = true
+							continue
+						}
+						// generic helper: BuildMap(np, …, func(ma){ consume(src, ma) }) with np and consume parameters of
+						// the helper — the message is the np argument of the helper calls that pass this decoder as consume
+						par := cl.Parent()
+						np, isParam := call.Call.Args[0].(*ssa.Parameter)
+						if !isParam || np.Parent() != par {
+							continue
+						}
+						npIdx := -1
+						for i, q := range par.Params {
+							if q == np {
+								npIdx = i
+							}
+						}
+						for _, pe := range c.G.In[par] {
+							hc, ok := pe.Site.(*ssa.Call)
+							if !ok || hc.Call.StaticCallee() != par || npIdx < 0 || npIdx >= len(hc.Call.Args) {
+								continue
+							}
+							passes := false
+							for _, a := range hc.Call.Args {
+								if af, isFn := a.(*ssa.Function); isFn && af == fn {
+									passes = true
+								}
+							}
+							if passes {
+								if name := typeSlabField(hc.Call.Args[npIdx]); name != "" {
+									set[name] = true
+								}
+							}
 						}
 					}
 				}
@@ -413,6 +444,19 @@ func (c *Ctx) findDecoders() []*decoder {
 		for _, ci := range core.CallsIn(fn) {
 			if call, ok := ci.(*ssa.Call); ok && isPW(call, "ConsumeTag") {
 				tag = call
+			}
+		}
+		if tag != nil && c.consumeForwarder(fn) != nil {
+			continue // the tag-reading method of a cursor type, not a decoder loop
+		}
+		if tag == nil {
+			// the tag comes from a cursor's forwarder: (num, type, err) := r.tag()
+			for _, ci := range core.CallsIn(fn) {
+				if call, ok := ci.(*ssa.Call); ok {
+					if fw := c.forwarderOfCall(call); fw != nil && fw.pw == "ConsumeTag" {
+						tag = call
+					}
+				}
 			}
 		}
 		if tag == nil {
@@ -479,6 +523,10 @@ func (c *Ctx) analyseCase(d *decoder, dc *decCase) {
 				if call, ok := ins.(*ssa.Call); ok {
 					if nm := pwName(call); strings.HasPrefix(nm, "Consume") && nm != "ConsumeTag" {
 						dc.accepted[w] = nm
+						return
+					}
+					if fw := c.forwarderOfCall(call); fw != nil && fw.pw != "ConsumeTag" {
+						dc.accepted[w] = fw.pw
 						return
 					}
 					// a repository helper that is handed the wire type: does it consume under w?
@@ -783,12 +831,60 @@ func (c *Ctx) checkDefault(d *decoder) {
 	}
 	region := dominatedRegion(d.deflt)
 	var cfv *ssa.Call
+	var cfvFwd *fwdInfo
 	for b := range region {
 		for _, ins := range b.Instrs {
 			if call, ok := ins.(*ssa.Call); ok && isPW(call, "ConsumeFieldValue") {
 				cfv = call
+			} else if ok {
+				if fw := c.forwarderOfCall(call); fw != nil && fw.pw == "ConsumeFieldValue" {
+					cfv, cfvFwd = call, fw
+				}
 			}
 		}
+	}
+	if cfvFwd != nil {
+		// cursor form: r.skip(fieldNum, wireType) forwards both to ConsumeFieldValue; only its error ends the loop
+		pos = c.P.Pos(firstPos(d.deflt))
+		var bad []string
+		argOf := func(v ssa.Value) int {
+			for i, a := range cfv.Call.Args {
+				if core.Unconv(a) == v {
+					return i
+				}
+			}
+			return -1
+		}
+		ni, wi := argOf(d.fieldNum), argOf(d.wireType)
+		h := cfvFwd.fn
+		if ni < 0 || wi < 0 || ni >= len(h.Params) || wi >= len(h.Params) || core.Unconv(cfvFwd.call.Call.Args[0]) != ssa.Value(h.Params[ni]) || core.Unconv(cfvFwd.call.Call.Args[1]) != ssa.Value(h.Params[wi]) {
+			bad = append(bad, "ConsumeFieldValue is not given the tag's field number and wire type")
+		}
+		ev, _ := core.ErrResultOfCall(cfv)
+		for b := range region {
+			if len(b.Instrs) == 0 {
+				continue
+			}
+			ret, ok := b.Instrs[len(b.Instrs)-1].(*ssa.Return)
+			if !ok {
+				continue
+			}
+			if ev == nil || !core.GuardedBy(b, func(cond ssa.Value) (bool, bool) {
+				x, trueMeansNil, ok := core.NilCmp(cond)
+				if !ok || x != ev {
+					return false, false
+				}
+				return !trueMeansNil, true
+			}) {
+				bad = append(bad, fmt.Sprintf("default path returns at %s without an error from the skip helper", c.P.Pos(ret.Pos())))
+			}
+		}
+		if len(bad) > 0 {
+			c.R.Violate("R9.2", key, pos, strings.Join(bad, "; "))
+		} else {
+			c.R.OK("R9.2", key, pos, "unknown fields are skipped with ConsumeFieldValue through "+h.Name()+"; only its error (negative length) ends the decode")
+		}
+		return
 	}
 	pos = c.P.Pos(firstPos(d.deflt))
 	if cfv == nil {
@@ -857,6 +953,12 @@ func (c *Ctx) checkConsume(fn *ssa.Function, call *ssa.Call, nm string, ord int)
 		return
 	}
 	buf := call.Call.Args[len(call.Call.Args)-1]
+	// cursor form: the call sits in a consume forwarder whose advance helper sign-tests the length and re-slices the
+	// very buffer field that was consumed
+	if fw := c.consumeForwarder(fn); fw != nil && fw.call == call {
+		c.R.OK("R9.3", key, pos, "length handed to "+fw.adv.fn.Name()+", which errors on n<0 and otherwise advances the consumed buffer field "+fw.field.Name()+" by rest[n:]; the helper's error is returned")
+		return
+	}
 	var bad []string
 	var slice *ssa.Slice
 	signTested := false
